@@ -540,6 +540,22 @@ func (e *Env) callExpr(n *ast.CallExpr) Term {
 		so := u.ss.sortOf(t)
 		_, ub := u.boxFn(so)
 		return Term{S: fmt.Sprintf("(%s (ival %s))", ub, a.S), Sort: so, T: t}
+	case "asType":
+		a := e.tr(n.Args[0])
+		lit, ok := n.Args[1].(*ast.BasicLit)
+		if !ok {
+			fail("asType needs a string literal")
+		}
+		name, _ := strconv.Unquote(lit.Value)
+		t := u.p.lookupType(name)
+		if t == nil {
+			fail("unknown type %s", name)
+		}
+		if u.ss.sortOf(t) != a.Sort {
+			fail("asType: %s has sort %s, not %s", name, u.ss.sortOf(t), a.Sort)
+		}
+		a.T = t
+		return a
 	case "mapHas":
 		m, k := e.tr(n.Args[0]), e.tr(n.Args[1])
 		mt, ok := m.T.Underlying().(*types.Map)
